@@ -204,6 +204,26 @@ fn packs(tier: Tier) -> &'static Vec<Vec<u8>> {
         if !cur.is_empty() {
             packs.push(cur);
         }
+        // the same heads on long-lived connections: 1100 requests each (quick: the first such
+        // connection, thorough: all) - fidelity must not depend on what a connection has carried
+        let mut cur: Vec<u8> = Vec::new();
+        let mut n = 0;
+        let mut long = 0;
+        for (h, v10) in heads(tier) {
+            if v10 {
+                continue;
+            }
+            cur.extend_from_slice(&h);
+            n += 1;
+            if n == 1100 {
+                packs.push(std::mem::take(&mut cur));
+                n = 0;
+                long += 1;
+                if !deep(tier) && long == 1 {
+                    break;
+                }
+            }
+        }
         packs
     })
 }
@@ -246,7 +266,7 @@ impl Check for C02 {
     }
     fn rule(&self, tier: Tier) -> String {
         format!(
-            "request heads from the RFC 7230 grammar: every request line (14 methods incl. case variants and an all-tchar token x 7 targets incl. asterisk, absolute-form, all visible ASCII, 1100 bytes x versions 1.0/1.1) with 2-3 header lists; every header list of length 1 and 2 over {} atoms (names {:?}... x values x surrounding OWS) with request lines round-robin; lists of 3/8/63/64 fields; heads of exactly 1023..2049 bytes; {} heads in {} keep-alive connections x peer kinds TCP-like/UNIX-like; each delivered head compared field by field with the generator's abstract request (method, target, version, header order/multiplicity/values after OWS removal, peer address); every case is distinct and non-trivial",
+            "request heads from the RFC 7230 grammar: every request line (14 methods incl. case variants and an all-tchar token x 7 targets incl. asterisk, absolute-form, all visible ASCII, 1100 bytes x versions 1.0/1.1) with 2-3 header lists; every header list of length 1 and 2 over {} atoms (names {:?}... x values x surrounding OWS) with request lines round-robin; lists of 3/8/63/64 fields; heads of exactly 1023..2049 bytes; {} heads in {} keep-alive connections of up to 8 requests, and again on connections of 1100 requests (quick: one, thorough: all), x peer kinds TCP-like/UNIX-like; each delivered head compared field by field with the generator's abstract request (method, target, version, header order/multiplicity/values after OWS removal, peer address); every case is distinct and non-trivial",
             atoms(tier).len(), names(tier).iter().map(|n| if n.len() > 20 { "<1100-byte name>".to_string() } else { n.clone() }).collect::<Vec<_>>(),
             heads(tier).len(), packs(tier).len()
         )
